@@ -6,7 +6,7 @@
 //!   ArcUnion (either arm), ThinArc, raw pointers from Arc::into_raw / ThinArc::into_raw, arc-swap
 //!   RefCnt pointers. Payloads: Drop-tracked sized value, u64, over-aligned (align 32) value,
 //!   header+slice of Drop-tracked values, [Dt], str, dyn Trait.
-//! BOUNDS: bounded symbolic histories (DESIGN 4.2): 3 slots x 3 (quick) / 4 (thorough) symbolic
+//! BOUNDS: bounded symbolic histories (DESIGN 4.2): 2 slots x 3 (quick) / 4 (thorough) symbolic
 //!   steps over clone / convert / borrow-read / drop on mixed kinds.
 //! ASSUME: std::alloc::alloc and alloc::alloc::dealloc_nonnull are replaced by logging stubs over
 //!   CBMC's malloc/free (allocation succeeds; failure is C07's subject).
@@ -217,5 +217,6 @@ fn history<const STEPS: usize>() {
     }
     assert!(ledger_is(0, 1) && n_live() == 0, "after releasing every handle the value must be destroyed once and the block returned");
 }
-h!(t_history_3, 5, history::<3>());
+h!(q_history_3, 5, history::<3>());
+h!(t_history_4, 6, history::<4>());
 h!(t_history_2, 4, history::<2>());
